@@ -25,7 +25,7 @@ from . import c01
 ID = "C02"
 LEVEL = "model_checking"
 NAN, INF = float("nan"), float("inf")
-ROWS1 = [0.3, 0.55, 0.0, 0.5, 1.5, INF, -INF, NAN]
+ROWS1 = [0.3, 0.55, 0.0, 0.5, 1.25, INF, -INF, NAN]  # 1.25 = 2*end - inflection of the canonical Concave (a pole of its unused branch)
 ROWS2 = [(0.25, 0.625), (0.625, 0.25), (0.0, 1.0), (1.5, 0.5), (NAN, 0.5), (INF, -INF)]
 LOCKS_ALL = [(lp, d, lr) for lp in (False, True) for d in (NAN, 0.5) for lr in (False, True)]
 LOCKS_FEW = [(False, NAN, False), (True, 0.5, True)]
@@ -78,12 +78,20 @@ def recipes(tier: str):
         "H", [R.in_var("x"), R.in_var("y")],
         [R.out_var("o1", aggregation="BoundedSum", defuzzifier=("Bisector", 16)),
          R.out_var("o2", terms=k_terms, aggregation=None, defuzzifier=("WeightedAverage", "Automatic"))],
-        [R.block("rb1", a_rules[:2] and [R.rule(("and", P("x", (), "lo"), P("y", (), "hi")), [("o1", (), "lo"), ("o2", (), "hi")]),
+        [R.block("rb1", a_rules[:2] and [R.rule(("and", P("x", (), "lo"), P("y", (), "hi")), [("o1", (), "lo"), ("o2", ("not",), "hi")]),
                                           R.rule(P("x", ("very",), "hi"), [("o1", (), "hi")], weight="0.500")],
                  "AlgebraicProduct", "AlgebraicSum", "AlgebraicProduct"),
          R.block("rb2", [R.rule(("or", P("o1", (), "hi"), P("y", (), "lo")), [("o2", (), "lo")]),
                          R.rule(P("y", ("any",), None), [("o2", (), "hi")], weight="0.250")], "Minimum", "Maximum", None)])
     out.append((hybrid, True))
+    # a Takagi-Sugeno engine whose Function terms use every kind of registered function on the per-row variables
+    from ..ref import formula as RF
+    fterms = [R.function_term("u", RF.parse(["abs", "(", "a", "-", "0.500", ")", "+", "max", "(", "x", ",", "0.250", ")"])),
+              R.function_term("v", RF.parse(["gt", "(", "a", ",", "0.400", ")", "*", "sin", "(", "a", ")", "-", "round", "(", "x", ")"]))]
+    rules_f = [R.rule(P("a", (), "t"), [("o", (), "u")]), R.rule(P("a", ("not",), "t"), [("o", ("seldom",), "v")], weight="0.250")]
+    out.append((R.engine("F", [R.in_var("a", terms=[R.shape("Triangle", "t", [0.0, 0.5, 1.0])])],
+                         [R.out_var("o", -5.0, 5.0, terms=fterms, aggregation=None, defuzzifier=("WeightedAverage", "TakagiSugeno"))],
+                         [R.block("rb", rules_f, implication=None)]), True))
     # lock-range on the input variables: out-of-range rows must be clipped the same way in every mode
     for recipe, full in list(out):
         if full or recipe["outputs"][0]["defuzzifier"][0] in ("WeightedAverage", "WeightedSum") and recipe["inputs"][0]["terms"][0]["cls"] == "Triangle":
